@@ -243,3 +243,158 @@ contract(F, 'Synth.replace', props=('C17',),
          class_modules={'Target': F, 'NewSynth': F, 'Synth': F},
          hooks={'getattr': rp_getattr, 'truth': rp_truth},
          policies={'Synth.basic_new': rp_basic_new, 'sc3/synth/_graphparam.py::node_param': rp_param}, modifies=[], native=False)
+
+
+# ---- Node.mapn / mapan / _process_mn_args (C17: /n_mapn and /n_mapan: id, then (control, bus index, channel count) triples) ----------
+# _process_mn_args: the arguments are taken in pairs (control, bus), in order; every pair contributes exactly one triple at
+# the END of the data: the control as a control input, then (bus, 1) for a bus given as a number or (bus.index,
+# bus.channels) for a bus object.   mapn / mapan: ONE message through the node's own server: the command name, the node's
+# own id, then exactly that data.
+from vf.pyvc.spec import Loop
+NPAIRS = z3.Int('pairs.len')
+BUS_IS_INT = z3.Function('bus_is_a_number', z3.IntSort(), z3.BoolSort())
+
+
+def mn_clumps(eng, selfv, args, kwargs, st, node):
+    src, n = args[0], args[1]
+    two = n.k == 'int' and z3.is_true(z3.simplify(n.z == 2))
+    st.trace.append(('paired', src, bool(two)))
+
+    def get(e_, i, s_):
+        return vtuple([V('obj', oid='control', extra={'index': i}), V('obj', oid='bus', extra={'index': i})])
+    return [(st, V('seq', extra={'len': NPAIRS, 'facts': [NPAIRS >= 0], 'pairs-of': src, 'get': get}))]
+
+
+def mn_builtin(eng, name, args, kwargs, st, node):
+    if name == 'isinstance' and len(args) == 2 and args[0].k == 'obj' and args[0].oid == 'bus':
+        return [(st, vbool(BUS_IS_INT(args[0].extra['index'])))]
+    return None
+
+
+def mn_param(eng, selfv, args, kwargs, st, node):
+    return [(st, V('obj', oid='param', extra={'of': args[0]}))]
+
+
+def mn_getattr(eng, obj, name, st, node):
+    if obj.k == 'obj' and obj.oid == 'param' and name == '_as_control_input':
+        def conv(eng, a, kw, st, node, _o=obj):
+            return [(st, V('obj', oid='control-input', extra={'of': _o.extra['of']}))]
+        return [(st, V('func', py=('spec', conv)))]
+    if obj.k == 'obj' and obj.oid == 'bus' and name in ('index', 'channels'):
+        return [(st, V('obj', oid='bus.' + name, extra={'index': obj.extra['index']}))]
+    if obj.k == 'obj' and obj.extra is not None and obj.extra.get('data-list') and name == 'extend':
+        def ext(eng, a, kw, st, node, _o=obj):
+            st.trace.append(('extended', _o, a[0]))
+            return [(st, NONE)]
+        return [(st, V('func', py=('spec', ext)))]
+    return None
+
+
+def mn_new_list(eng, items, st):
+    if not items:
+        return V('obj', oid='data!%d' % next(eng.counter), extra={'data-list': True})
+    return None
+
+
+def mn_since(trace):
+    idx = max([i for i, e in enumerate(trace) if e[0] == 'loop-head'] or [-1])
+    return trace[idx + 1:] if idx >= 0 else None
+
+
+def mn_pass(c, L):
+    ev = mn_since(c.trace)
+    if not ev or L.phase != 'after':
+        return z3.BoolVal(True)
+    ex = [e for e in ev if e[0] == 'extended']
+    if len(ex) != 1 or ex[0][2].k != 'list' or ex[0][2].items is None or len(ex[0][2].items) != 3:
+        return z3.BoolVal(False)
+    ctl, b, n = ex[0][2].items
+    i = L.i - 1
+    if not (ctl.k == 'obj' and ctl.oid == 'control-input' and ctl.extra['of'].k == 'obj' and ctl.extra['of'].oid == 'control'):
+        return z3.BoolVal(False)
+    cl = [ctl.extra['of'].extra['index'] == i]
+    if b.k == 'obj' and b.oid == 'bus':
+        one = n.k == 'int' and z3.is_true(z3.simplify(n.z == 1))
+        cl += [BUS_IS_INT(i), b.extra['index'] == i, z3.BoolVal(bool(one))]                    # a number: that bus, one channel
+    elif b.k == 'obj' and b.oid == 'bus.index' and n.k == 'obj' and n.oid == 'bus.channels':
+        cl += [z3.Not(BUS_IS_INT(i)), b.extra['index'] == i, n.extra['index'] == i]          # a bus object: its index and width
+    else:
+        return z3.BoolVal(False)
+    return z3.And(*cl)
+
+
+def mn_over(c, seq, k, elem):
+    return z3.BoolVal(bool(seq.k == 'seq' and seq.extra.get('pairs-of') is c._params['tpl'])), z3.BoolVal(True)
+
+
+def mn_post(c):
+    paired = [e for e in c.trace if e[0] == 'paired']
+    ex = [e for e in c.trace if e[0] == 'extended']
+    r = c.resultv
+    ok = (len(paired) == 1 and paired[0][2] and paired[0][1] is c._params['tpl'] and r.k == 'obj' and (r.extra or {}).get('data-list')
+          and all(e[1] is r for e in ex))                                                      # ONE data list, the one returned
+    return z3.BoolVal(bool(ok))
+
+
+contract(F, 'Node._process_mn_args', props=('C17',), params={'tpl': 'obj'},
+         ensures=[('pairs-of-the-arguments;one-data-list,returned', mn_post)],
+         loops={0: Loop(inv=mn_pass, over=mn_over, kinds={'control': 'obj', 'bus': 'obj'})},
+         fields={'Node': {}}, class_modules={'Node': F},
+         hooks={'builtin_first': mn_builtin, 'getattr': mn_getattr, 'new_list': mn_new_list},
+         policies={'sc3/base/utils.py::gen_cclumps': mn_clumps, 'sc3/synth/_graphparam.py::node_param': mn_param},
+         modifies=[], native=False)
+
+
+def mm_process(eng, selfv, args, kwargs, st, node):
+    r = V('obj', oid='processed-data')
+    st.trace.append(('processed', tuple(args), r))
+    return [(st, r)]
+
+
+def mm_binop(eng, op, a, b, st, node):
+    import ast
+    if isinstance(op, ast.Add) and a.k == 'list' and b.k == 'obj' and b.oid == 'processed-data':
+        return [(st, V('obj', oid='head+data', extra={'head': a, 'data': b}))]
+    return None
+
+
+def mm_getattr(eng, obj, name, st, node):
+    if obj.k == 'obj' and str(obj.oid).endswith('.server') and name == 'addr':
+        return [(st, V('obj', oid='addr-of:' + str(obj.oid)))]
+    if obj.k == 'obj' and str(obj.oid).startswith('addr-of:') and name == 'send_msg':
+        def send(eng, a, kw, st, node, _o=obj):
+            st.trace.append(('send_msg', _o.oid, tuple(a)))
+            return [(st, NONE)]
+        return [(st, V('func', py=('spec', send)))]
+    return None
+
+
+def mapn_post(cmd):
+    def post(c):
+        pr = [e for e in c.trace if e[0] == 'processed']
+        s = [e for e in c.trace if e[0] == 'send_msg']
+        if len(pr) != 1 or len(s) != 1 or s[0][1] != 'addr-of:self.server':
+            return z3.BoolVal(False)
+        a = s[0][2]
+        if len(pr[0][1]) != 1 or pr[0][1][0] is not c._params['args'] or len(a) != 1 or a[0].k != 'star':
+            return z3.BoolVal(False)
+        whole = a[0].extra['seq']
+        if not (whole.k == 'obj' and whole.oid == 'head+data' and whole.extra['data'] is pr[0][2]):
+            return z3.BoolVal(False)
+        head = whole.extra['head']
+        if head.items is None or len(head.items) != 2 or head.items[0].k != 'str' or head.items[0].py != cmd or head.items[1].k != 'int':
+            return z3.BoolVal(False)
+        return head.items[1].z == c.pre.self.node_id                                          # the command, the node's OWN id, the data
+    return post
+
+
+def margs_kind(eng, name):
+    return V('obj', oid='args')
+
+
+for _m, _cmd in (('mapn', '/n_mapn'), ('mapan', '/n_mapan')):
+    contract(F, 'Node.' + _m, props=('C17',), params={'self': 'self', 'args': margs_kind},
+             ensures=[('one-message:command,own-id,then-exactly-the-processed-pairs', mapn_post(_cmd))],
+             fields={'Node': {'server': 'obj', 'node_id': 'int'}}, class_modules={'Node': F},
+             hooks={'getattr': mm_getattr, 'binop': mm_binop}, policies={'Node._process_mn_args': mm_process},
+             modifies=[], native=False)
